@@ -346,6 +346,9 @@ impl Prop for C17 {
                     }
                     mb.vertices.sort_unstable();
                 }
+                // the shared early-exit flag of is_semicomplete is only wrong under particular
+                // interleavings: near misses are repeated more often (the call is cheap)
+                let reps = if name.contains("semicomplete") { reps * 6 } else { reps };
                 Case { op, a, b, ma, mb, seed, p, cpus, reps }
             })
             .boxed()
